@@ -29,9 +29,8 @@ Definition err_wfb (xs : list bytes) (oe : option err) : bool :=
 Definition strip_all (p : bytes) (l : list bytes) : list bytes :=
   flat_map (fun a => match cut_prefix p a with Some r => [r] | None => [] end) l.
 
-(* Select lets a tag or referrer listing through for an allowed repository - and for the
-   name "*", which its check function treats as the catalog *)
-Definition select_passes (al : list bytes) (r : bytes) : bool := mem_bytes r al || beqb r star.
+(* Select lets a tag or referrer listing through for an allowed repository only *)
+Definition select_passes (al : list bytes) (r : bytes) : bool := mem_bytes r al.
 
 Fixpoint names (k : stack) (q : query) : list bytes :=
   match k with
@@ -45,6 +44,7 @@ Fixpoint names (k : stack) (q : query) : list bytes :=
                      end
       end
   | KScript xs _ => xs
+  | KFuncs => []
   | KHop _ _ i | KDebug i => names i q
   | KSelect al i =>
       match q with
@@ -65,6 +65,15 @@ Inductive fclass := FNo | FNotFound | FErr.
 Definition refuses (n : Z) (o : sopts) : bool :=
   (so_max o >? 0)%Z && (client_page_size n >? so_max o)%Z.
 
+(* unify: a member that does not know the repository does not count, unless both do not *)
+Definition fc_merge (f0 f1 : fclass) : fclass :=
+  match f0, f1 with
+  | FNotFound, f => f
+  | f, FNotFound => f
+  | FNo, FNo => FNo
+  | _, _ => FErr
+  end.
+
 Fixpoint fails (k : stack) (q : query) : fclass :=
   match k with
   | KMem m =>
@@ -77,6 +86,7 @@ Fixpoint fails (k : stack) (q : query) : fclass :=
       | None => FNo
       | Some e => if ecode_eqb (e_code e) NAME_UNKNOWN then FNotFound else FErr
       end
+  | KFuncs => FErr                                     (* the unsupported error *)
   | KHop n o i =>
       match q with
       | QRefs _ _ => fails i q                       (* the referrers endpoint takes no page size *)
@@ -94,19 +104,14 @@ Fixpoint fails (k : stack) (q : query) : fclass :=
       | QTags r => fails i (QTags (sub_repo p r))
       | QRefs r d => fails i (QRefs (sub_repo p r) d)
       end
-  | KUnify a b =>
-      match fails a q, fails b q with
-      | FNotFound, f => f
-      | f, FNotFound => f
-      | FNo, FNo => FNo
-      | _, _ => FErr
-      end
+  | KUnify a b => fc_merge (fails a q) (fails b q)
   end.
 
 Fixpoint stack_wfb (k : stack) : bool :=
   match k with
   | KMem m => nodupb (map fst m) && forallb (fun r => mrepo_wfb (snd r)) m
   | KScript xs oe => ascending xs && err_wfb xs oe && forallb nonempty xs
+  | KFuncs => true
   | KHop n o i => (n >=? 0)%Z && stack_wfb i
   | KSelect _ i | KDebug i => stack_wfb i
   | KSub p i => negb (mem_bytes (p ++ slash) (names i QRepos)) && stack_wfb i
